@@ -94,6 +94,24 @@ class Ctx:
         tlc.clean_work(self.work.name)
 
 
+def relieve_jit(limit: int = 30000) -> bool:
+    """XLA's CPU backend maps memory for every compiled executable; a long run that creates thousands of distinct small
+    programs (eager op-by-op code, fresh policy objects) reaches vm.max_map_count (65530) and LLVM aborts with
+    "Cannot allocate memory".  Drop the compilation caches when the process has many mappings."""
+    try:
+        with open("/proc/self/maps") as f:
+            n = sum(1 for _ in f)
+    except OSError:
+        return False
+    if n < limit:
+        return False
+    import gc
+    import jax
+    jax.clear_caches()
+    gc.collect()
+    return True
+
+
 def load_findings() -> list:
     if not FINDINGS.exists():
         return []
